@@ -214,7 +214,21 @@ private:
         if constexpr (std::is_invocable_v<F>) { f(); return; }
     }
 };
-class QWidget : public QObject {};
+class QFont {
+public:
+    int pointSize_ = 0; bool bold_ = false, italic_ = false; QString family_;
+    int pointSize() const { return pointSize_; } void setPointSize(int v) { pointSize_ = v; }
+    bool bold() const { return bold_; } void setBold(bool v) { bold_ = v; }
+    bool italic() const { return italic_; } void setItalic(bool v) { italic_ = v; }
+    QString family() const { return family_; } void setFamily(const QString &v) { family_ = v; }
+    friend bool operator==(const QFont &a, const QFont &b) { return a.pointSize_ == b.pointSize_ && a.bold_ == b.bold_ && a.italic_ == b.italic_ && a.family_ == b.family_; }
+};
+class QWidget : public QObject {
+public:
+    QFont font_;
+    QFont font() const { return font_; }
+    void setFont(const QFont &f) { font_ = f; }
+};
 
 struct QCoreApplication {
     static QString translate(const char *, const char *text) { return QString::fromUtf8(text); }     // no translation loaded: the source text
@@ -231,7 +245,7 @@ public:
     QDebug &noquote() { quote = false; return *this; }
     QDebug &sep() { if (!first) buf += "|"; first = false; return *this; }
     QDebug &operator<<(const QString &s) { sep(); buf += "s:" + s.hex(); return *this; }
-    QDebug &operator<<(const char *s) { sep(); buf += std::string("c:") + s; return *this; }
+    QDebug &operator<<(const char *s) { return *this << QString::fromUtf8(s); }
     QDebug &operator<<(bool b) { sep(); buf += b ? "b:1" : "b:0"; return *this; }
     QDebug &operator<<(int i) { sep(); buf += "i:" + std::to_string(i); return *this; }
     QDebug &operator<<(uint i) { sep(); buf += "u:" + std::to_string(i); return *this; }
